@@ -19,9 +19,11 @@ LEVEL_TEXT = ("PosePath3D.align (all 8 flag / n cases), align_origin, scale and 
 LEVEL_NOTE = ("floats as reals; umeyama_alignment cut by its contract (C03); verified for matrix-built trajectories; "
               "Umeyama's theorem cited; ape()/rpe() recording: bounded")
 SIDECARS = ["contracts.lie_algebra", "contracts.lemmas_lie", "contracts.geometry", "contracts.filters", "contracts.umeyama",
-            "contracts.trajectory", "contracts.lemmas_traj"]
+            "contracts.trajectory", "contracts.lemmas_traj",
+            "contracts.metrics", "contracts.overwrite", "contracts.ape_rpe_cli"]
 T = "evo.core.trajectory."
-FUNCTIONS = [T + "PosePath3D.scale", T + "PosePath3D.transform", T + "PosePath3D.align_origin", T + "PosePath3D.align"]
+FUNCTIONS = [T + "PosePath3D.scale", T + "PosePath3D.transform", T + "PosePath3D.align_origin", T + "PosePath3D.align",
+             "evo.main_ape.ape", "evo.main_rpe.rpe"]
 LEMMAS = ["origin_alignment_maps_first_pose_and_keeps_relative_poses", "se3_inverse_is_group_inverse"]
 TRUSTED = ["Umeyama 1991 (cited): the alignment is the least-squares optimum of its class",
            "evo.core.transformations.quaternion_from_matrix (vendored): unit quaternion of the rotation block"]
